@@ -81,7 +81,7 @@ func QueryAnyAuthd(authd []string, remoteIP string, tlsEnabled bool, commonName 
 	start := rand.Int()
 	n := len(authd)
 	for i := 0; i < n; i++ {
-		a := authd[(i+start)%n]
+		a := authd[(i+start%n)%n]
 		authState, err := QueryAuthd(a, remoteIP, tlsEnabled, commonName, authSecret, clientTLSConfig, connectTimeout, requestTimeout, httpRequestMethod)
 		if err != nil {
 			es := fmt.Sprintf("failed to auth against %s - %s", a, err)
